@@ -251,8 +251,8 @@ def _renumber(recs):
                 new.setdefault(r['id'], n)
             r['id'] = n
     for r in recs:
-        if r['k'] == 'conect':
-            r['ids'] = [new.get(i, 99990) for i in r['ids']]
+        if r['k'] == 'conect':     # atoms that are gone: serial numbers nobody has (the first atom and its partners differ)
+            r['ids'] = [new.get(i, 99991 if k == 0 else 99990) for k, i in enumerate(r['ids'])]
     return recs
 
 
@@ -447,6 +447,31 @@ def op_conect_cross(recs, rng, arg=None):
         if all(max(abs(a[q] - o[q]) for q in 'xyz') <= 15000 for o in (b, c)):
             extra.append({'k': 'conect', 'ids': [a['id'], b['id'], c['id'], 99999]})   # 99999: no such atom
     return recs + extra
+
+
+def _is_h(r):
+    return r['el'] == 'H' or (r['el'] == '' and r['name'].lstrip('0123456789')[:1] == 'H')
+
+
+def op_hclash(recs, rng, arg=2):
+    """two hydrogens of one residue brought to 100 pm of each other (closer than any H-H threshold)"""
+    runs = [[r for r in run if _is_h(r)] for run in _residues(recs)]
+    runs = [x for x in runs if len(x) >= 2]
+    for run in rng.sample(runs, min(int(arg), len(runs))):
+        a, b = run[0], run[1]
+        b['x'], b['y'], b['z'] = a['x'] + 100, a['y'], a['z']
+    return recs
+
+
+def op_hbridge(recs, rng, arg=2):
+    """a hydrogen placed 110 pm from a heavy atom of the NEXT residue (well within the threshold of any H-X pair)"""
+    runs = _residues(recs)
+    ks = [k for k in range(len(runs) - 1) if any(_is_h(r) for r in runs[k]) and any(not _is_h(r) for r in runs[k + 1])]
+    for k in rng.sample(ks, min(int(arg), len(ks))):
+        h = [r for r in runs[k] if _is_h(r)][-1]
+        x = [r for r in runs[k + 1] if not _is_h(r)][-1]
+        h['x'], h['y'], h['z'] = x['x'], x['y'] + 110, x['z']
+    return recs
 
 
 def op_drop(recs, rng, arg=5):
@@ -828,11 +853,11 @@ def plan(tier, seed):
     q.append(_case('trpcage', ['unkres:2', 'unkel:3', 'icode'], seed=seed + 1))
     q.append(_case('trpcage', ['altloc:4', 'restart'], mode='name', seed=seed + 2))
     q.append(_case('trpcage', ['ter_mid', 'conect_cross'], mode='distance', fudge=(9, 10), seed=seed + 3))
-    q.append(_case('trpcage', ['models:3'], model=2, fudge=(13, 10), seed=seed + 4))
+    q.append(_case('trpcage', ['hclash', 'hbridge', 'models:3'], model=2, fudge=(13, 10), seed=seed + 4))
     q.append(_case('villin', ['head:12', 'models_tail:2'], model=2, seed=seed + 11))   # no TER in front of ENDMDL
     q.append(_case('trpcage', ['twin_touch'], seed=seed + 5, history=['run', 'run']))
     q.append(_case('trpcage', ['restart_ter', 'twoletter'], ff='amber', seed=seed + 6))
-    q.append(_case('trpcage', ['nohyd'], fmt='gro', seed=seed + 7))
+    q.append(_case('trpcage', ['nohyd'], fmt='gro', fudge=(3, 2), seed=seed + 7))      # 1-3 pairs within the threshold: block non-bonds decide
     q.append(_case('3i40', seed=seed))                                                     # two chains, inter-chain CONECT
     q.append(_case('3i40', ['ligand'], mode='distance', fudge=(1, 1), exclude=['HOH'], seed=seed + 8))
     q.append(_case('villin', ['blankel', 'twin_far'], seed=seed + 9, history=['remove:6', 'run']))
@@ -859,7 +884,7 @@ def plan(tier, seed):
     # every text-level operation on several structures, random option vectors
     single = [['unkres:3'], ['unkel:5'], ['blankel'], ['twoletter'], ['altloc:6'], ['icode'], ['restart'], ['ter_mid'],
               ['restart_ter'], ['models:3'], ['twin_far'], ['twin_touch'], ['ligand'], ['conect_cross'], ['drop:10'], ['shuffle'],
-              ['nohyd'], ['models_tail:2'], ['ter_mid', 'conect_cross'], ['twin_touch', 'conect_cross'], ['altloc:5', 'icode', 'unkres:2'],
+              ['nohyd'], ['models_tail:2'], ['hclash:4', 'hbridge:4'], ['ter_mid', 'conect_cross'], ['twin_touch', 'conect_cross'], ['altloc:5', 'icode', 'unkres:2'],
               ['restart_ter', 'shuffle'], ['ligand', 'conect_cross', 'unkel:4'], ['twin_far', 'models:2']]
     for ops in single:
         for src in rng.sample(['dipro', 'sheet', 'trpcage', '3i40', 'villin', 'hst5', 'bpti', '1ubq', 'dna'], 4):
@@ -888,7 +913,11 @@ def judge_events(events, timeout=1500):
     work = tlc.scratch('c10realj_')
     try:
         tf = tlc.write_json(work, 'trace.json', [e['event'] for e in events])
-        res = tlc.run('Trace_Bonds', TRACE_CFG, dump=True, env={'TRACE_FILE': tf}, workdir=work, workers=1, timeout=timeout)
+        env = {'TRACE_FILE': tf}
+        natoms = sum(len(e['event']['sys']['atoms']) if e['event']['sys'] else 0 for e in events)
+        if natoms < 2500:     # short runs: client compiler, two collector threads (less than half the CPU; slower on long runs)
+            env['JAVA_TOOL_OPTIONS'] = '-XX:TieredStopAtLevel=1 -XX:ParallelGCThreads=2'
+        res = tlc.run('Trace_Bonds', TRACE_CFG, dump=True, env=env, workdir=work, workers=1, timeout=timeout)
         if res.violated:
             raise tlc.MachineryError('Trace_Bonds violated %s' % res.violated)
         verdicts = {st['tid']: (st['verdict'], st['info']) for st in res.states() if st['verdict'] != 'pending'}
